@@ -95,34 +95,34 @@ def run(chk):
            note="strict base order fails on self-overlapping layouts (spec-level image of the keyed known finding)")
     G, K = (5, 3) if quick else (7, 3)
     locs = E.enum_locs(G, K)
-    evs = [["cert", G, K, [[b, st] for (b, st) in locs]]]
-    nsh = 64
-    parts = pmap(_map_sub_events, [(locs[i::nsh], G, i) for i in range(nsh)])
-    evs += [e for p in parts for e in p]
+
+    def calls(evs):
+        return sum(len(e[4]) + len(e[5]) for e in evs if e[0] == "map") + sum(len(e[3]) for e in evs if e[0] == "sub") \
+            + 2 * sum(1 for e in evs if e[0] == "rel")
+
+    kw = dict(shard=1500, label="maps", keyfn=_key)
+    chk.validate("C01Trace", [["cert", G, K, [[b, st] for (b, st) in locs]]], **kw)
+    nsh = 64 if quick else 1024
+    ncalls = chk.leg("C01Trace", _map_sub_events, [(locs[i::nsh], G, i) for i in range(nsh)], stat=calls, **kw)[1]
     # unstranded receivers (a sample) and larger random layouts
     uns = [(b, ".") for (b, st) in rnd.sample(locs, 150) if st == "+"]
-    evs += _map_sub_events((uns, G, 0))
     big = _random_locs(rnd, 150 if quick else 3000, 60, 6)
-    parts = pmap(_map_sub_events, [(big[i::16], 60, i) for i in range(16)])
-    evs += [e for p in parts for e in p]
+    ncalls += chk.leg("C01Trace", _map_sub_events, [(uns, G, 0)] + [(big[i::16], 60, i) for i in range(16)], stat=calls, **kw)[1]
     # relative-location form: all ordered pairs of Locs(Gp, 2)
     Gp = 4 if quick else 5
     pl = E.enum_locs(Gp, 2)
-    parts = pmap(_rel_events, [(pl[i::nsh], pl, Gp) for i in range(nsh)])
-    rel = [e for p in parts for e in p]
-    evs += rel
+    nsh = 64 if quick else 512
+    nrel, c = chk.leg("C01Trace", _rel_events, [(pl[i::nsh], pl, Gp) for i in range(nsh)], stat=calls, **kw)
+    ncalls += c
     bigq = _random_locs(rnd, 60 if quick else 400, 40, 4)
     bigo = _random_locs(rnd, 40 if quick else 200, 40, 4)
-    parts = pmap(_rel_events, [(bigo[i::16], bigq, 40) for i in range(16)])
-    evs += [e for p in parts for e in p]
+    ncalls += chk.leg("C01Trace", _rel_events, [(bigo[i::16], bigq, 40) for i in range(16)], stat=calls, **kw)[1]
     # leg S: the calls the repository's own tests make, judged with the same clauses
-    evs += suite_events(chk, "C01Trace")
-    chk.validate("C01Trace", evs, shard=1500, label="maps", keyfn=_key)
+    chk.validate("C01Trace", suite_events(chk, "C01Trace"), **kw)
     chk.exhaustive = True
-    chk.nontrivial = len(locs) + len(rel)
-    chk.extra["constants"] = {"G": G, "K": K, "pairs_G": Gp, "locations": len(locs), "pairs": len(rel),
-                              "calls_judged": sum(len(e[4]) + len(e[5]) for e in evs if e[0] == "map")
-                              + sum(len(e[3]) for e in evs if e[0] == "sub") + 2 * len(rel)}
+    chk.nontrivial = len(locs) + nrel
+    chk.extra["constants"] = {"G": G, "K": K, "pairs_G": Gp, "locations": len(locs), "pairs": nrel,
+                              "calls_judged": ncalls}
     chk.trusted += ["TLC", "Loc.tla Sem layer (Bases = 6 lines)", "harness/bcverif/encode.py projections"]
     return chk.finish("every location of Locs(G,K) (certified complete by TLC) x every relative position in -1..len, "
                       "every parent position in -1..G, every (a,b,strand) sub-interval incl. invalid ones; all "
